@@ -132,7 +132,8 @@ def render(c):
 
 
 def main():
-    dst = sys.argv[1] if len(sys.argv) > 1 else "/verif/coq/Generated/Consts.v"
+    here = os.path.dirname(os.path.dirname(os.path.abspath(__file__)))
+    dst = sys.argv[1] if len(sys.argv) > 1 else os.path.join(here, "coq", "Generated", "Consts.v")
     txt = render(translate())
     old = open(dst).read() if os.path.exists(dst) else None
     if old != txt:
